@@ -66,7 +66,7 @@ Cancel1(fs, id) == {IF f.stored /\ f.id = id /\ f.st = "pending" THEN [f EXCEPT 
 (* scripted broker and network *)
 PeerSend(c, pkt) == link[c] = "up" /\ down' = [down EXCEPT ![c] = Append(@, pkt)]
                     /\ UNCHANGED <<link, up, obj, proc, inside, waiting, sessC, futs, fname, nfut, cfg, obs>>
-PeerRecv(c, pkt) == link[c] \in {"up", "gclosed"} /\ up[c] # <<>>
+PeerRecv(c, pkt) == link[c] \in {"up", "gclosed", "pclosed"} /\ up[c] # <<>>       \* (the scripted peer's reader drains what was in flight when the peer closed)
                     /\ G("C09", "WireOrder", Head(up[c]) = pkt)
                     /\ up' = [up EXCEPT ![c] = Tail(@)]
                     /\ UNCHANGED <<link, down, obj, proc, inside, waiting, sessC, futs, fname, nfut, cfg, obs>>
